@@ -9,7 +9,9 @@ import (
 	"fmt"
 	"os"
 	"path/filepath"
+	"runtime"
 	"sort"
+	"time"
 
 	"verif/harness/core"
 	"verif/harness/mon"
@@ -120,6 +122,21 @@ func run(args []string) int {
 	if rc != 0 {
 		return rc
 	}
+	// A generous wall-clock watchdog around the whole run (quick tiers take seconds, thorough ones minutes): if the
+	// monitor itself does not come back, the check is BROKEN (exit 2, never a verdict) and says where it was.
+	limit := 30 * time.Minute
+	if a.tier == "thorough" {
+		limit = 4 * time.Hour
+	}
+	time.AfterFunc(limit, func() {
+		buf := make([]byte, 1<<20)
+		n := runtime.Stack(buf, true)
+		dump := filepath.Join(c.VerifDir, "replay", fmt.Sprintf("%s-monitor-stuck.txt", a.prop))
+		os.MkdirAll(filepath.Dir(dump), 0o777)
+		os.WriteFile(dump, buf[:n], 0o666)
+		fmt.Fprintf(os.Stderr, "CHECK BROKEN (not a verdict): the monitor for %s did not finish within %v; goroutines in %s\n", a.prop, limit, dump)
+		os.Exit(2)
+	})
 	p.Run(c)
 	return c.Finish(filepath.Join(c.VerifDir, "evidence", a.prop+".json"), p.Floors)
 }
